@@ -13,7 +13,8 @@ CONSTANTS Cmds,        \* <<[name, params |-> <<[name, kind, n]>>]>> ; n = size 
 Always(c)   == {i \in 1..Len(c.params) : c.params[i].kind \in {"pos", "varpos"}}
 Optional(c) == {i \in 1..Len(c.params) : c.params[i].kind \in {"opt", "flag", "propval"}}
 Given(c)    == {Always(c) \cup S : S \in {T \in SUBSET Optional(c) : Cardinality(T) <= MaxOpts}}
-Choices(c)  == UNION {[D -> 1..5] : D \in Given(c)}
+MaxN(c)     == IF c.params = <<>> THEN 1 ELSE CHOOSE m \in {c.params[i].n : i \in 1..Len(c.params)} : \A i \in 1..Len(c.params) : c.params[i].n <= m
+Choices(c)  == UNION {[D -> 1..MaxN(c)] : D \in Given(c)}
 Valid(c, f) == \A i \in DOMAIN f : f[i] <= c.params[i].n
 Programs    == UNION {{[cmd |-> k, choice |-> f] : f \in {h \in Choices(Cmds[k]) : Valid(Cmds[k], h)}} : k \in 1..Len(Cmds)}
 
